@@ -33,7 +33,28 @@ SRC_FL = ["async_gen", "async_class", "async_class", "async_class_bare", "list",
 EAGER = {"chain"}  # handles closing what they own even if never advanced (tee/groupby handled separately)
 
 
+def _sequence_cases(shard, nshards):
+    idx = 0
+    tools = list(SEQ_ITER_TOOLS) + list(SEQ_AGG_TOOLS)
+    for tool in tools:
+        for kinds in itertools.product(("bare", "class", "gen"), repeat=2):
+            if kinds[0] == kinds[1]:
+                continue
+            for mode in ("exhaust", "close1"):
+                idx += 1
+                if idx % nshards == shard:
+                    yield {"kind": "sequence", "uses": [[tool, kinds[0], mode], [tool, kinds[1], mode]]}
+    # different tools sharing an adapter class
+    for i, t1 in enumerate(tools):
+        t2 = tools[(i * 7 + 3) % len(tools)]
+        for kinds in (("bare", "class"), ("class", "bare"), ("bare", "gen")):
+            idx += 1
+            if idx % nshards == shard:
+                yield {"kind": "sequence", "uses": [[t1, kinds[0], "exhaust"], [t2, kinds[1], "close1"], [t1, kinds[1], "exhaust"]]}
+
+
 def cases(tier, seed, shard, nshards):
+    yield from _sequence_cases(shard, nshards)
     rng = random.Random(f"C04-{seed}-{shard}")
     n = N_SPECS[tier] // nshards
     maxlen = 3 if tier == "quick" else 5
@@ -377,8 +398,92 @@ def run_groupby(case, stats):
             "sig": tuple(map(str, (keys, case["key"], case["flav"], case["ops"], fault, case.get("cancel"))))}
 
 
+# ---------------------------------------------------------------------------
+# sequences of uses: what an earlier use taught the library must not decide a later one
+# ---------------------------------------------------------------------------
+
+SEQ_ITER_TOOLS = {
+    "enumerate": lambda s: A.enumerate(s), "filter": lambda s: A.filter(None, s), "islice": lambda s: A.islice(s, 5),
+    "accumulate": lambda s: A.accumulate(s, lambda a, b: b), "pairwise": lambda s: A.pairwise(s),
+    "batched": lambda s: A.batched(s, 2), "takewhile": lambda s: A.takewhile(lambda x: True, s),
+    "dropwhile": lambda s: A.dropwhile(lambda x: False, s), "map": lambda s: A.map(lambda x: x, s),
+    "zip": lambda s: A.zip(s), "chain": lambda s: A.chain(s), "zip_longest": lambda s: A.zip_longest(s),
+    "merge": lambda s: A.merge(s, key=lambda x: x.key), "starmap": lambda s: A.starmap(lambda *a: a, A.zip(s)),
+    "compress": lambda s: A.compress(s, [1, 1, 1, 1]), "groupby": lambda s: A.groupby(s), "tee": lambda s: A.tee(s, 1)[0],
+}
+SEQ_AGG_TOOLS = {
+    "list": lambda s: A.list(s), "tuple": lambda s: A.tuple(s), "set": lambda s: A.set(s), "min": lambda s: A.min(s, key=lambda x: x.key),
+    "max": lambda s: A.max(s, key=lambda x: x.key), "all": lambda s: A.all(s), "any": lambda s: A.any(s),
+    "reduce": lambda s: A.reduce(lambda a, b: b, s), "sorted": lambda s: A.sorted(s, key=lambda x: x.key),
+    "nlargest": lambda s: A.nlargest(s, 2, key=lambda x: x.key), "nsmallest": lambda s: A.nsmallest(s, 2, key=lambda x: x.key),
+}
+
+
+def run_sequence(case, stats):
+    """Several uses, one after the other, of sources whose CLASS is the same but whose instances differ.
+
+    The adapter class is created afresh for every case; its instances forward everything but iteration to what
+    they wrap, which may or may not have an ``aclose``.  Each use is judged on its own.
+    """
+    CTX.reset()
+
+    class Adapter:
+        def __init__(self, inner):
+            self._inner = inner
+
+        def __aiter__(self):
+            return self
+
+        def __anext__(self):
+            return self._inner.__anext__()
+
+        def __getattr__(self, name):
+            if name.startswith("__"):
+                raise AttributeError(name)
+            return getattr(self._inner, name)
+
+    viols = []
+    head = f"uses in sequence {case['uses']}"
+    for n, (tool, inner_kind, mode) in enumerate(case["uses"]):
+        st = SrcState(n, [Item(k, (n, k)) for k in range(4)], Plan(), log=False)
+        inner = make_source(st, {"bare": "async_class_bare", "class": "async_class", "gen": "async_gen"}[inner_kind])
+        src = Adapter(inner)
+
+        async def use():
+            if tool in SEQ_AGG_TOOLS:
+                await SEQ_AGG_TOOLS[tool](src)
+                return
+            it = SEQ_ITER_TOOLS[tool](src)
+            if mode == "exhaust":
+                async for _ in it:
+                    pass
+            else:
+                await it.__anext__()
+            await it.aclose()
+
+        try:
+            drive(use())
+        except BaseException as exc:  # noqa: BLE001
+            viols.append({"key": f"{tool}/adapter-source-use-raised",
+                          "msg": f"{head}: use {n} ({tool} over an adapter around a {inner_kind} iterator, {mode}) raised {exc!r}"})
+            continue
+        if inner_kind != "bare" and not st.released():
+            viols.append({"key": f"{tool}/leak-of-adapter-source",
+                          "msg": f"{head}: use {n} ({tool} over an adapter around a {inner_kind} iterator, {mode}) left its "
+                                 f"source open"})
+        stats["sequence_uses"] += 1
+    run_finalizers()
+    if CTX.foreign:
+        viols.append({"key": "sequence/foreign-suspension", "msg": CTX.foreign[0]})
+    stats["scenarios"] += 1
+    stats["scn_sequence"] += 1
+    return {"violations": viols, "evals": len(case["uses"]), "nontrivial": True, "sig": ("sequence", str(case["uses"]))}
+
+
 def run_case(case, stats: Counter):
     kind = case["kind"]
+    if kind == "sequence":
+        return run_sequence(case, stats)
     if kind == "iter":
         return run_iter(case, stats)
     if kind == "agg":
@@ -390,7 +495,8 @@ def run_case(case, stats: Counter):
 
 def finish(stats, tier):
     for need in ("scn_close", "scn_fault", "scn_athrow", "scn_exhaust", "scn_agg_fault", "scn_tee", "scn_groupby",
-                 "tee_all_children_done", "groupby_closed_unstarted", "groupby_closed_after_fault", "groupby_closed_after_cancel"):
+                 "tee_all_children_done", "groupby_closed_unstarted", "groupby_closed_after_fault", "groupby_closed_after_cancel",
+                 "scn_sequence"):
         if not stats.get(need):
             return f"deciding counter {need} is zero"
     return None
